@@ -44,14 +44,14 @@ def exact_jobs(chk):
     jobs = []
     # pool {1/16..1}, degree 1-3, 2-6 points
     dom16 = [(n, d) for n in range(2, 7) for d in (1, 2, 3) if n > d]
-    n16 = 1500 if chk.thorough() else 80
+    n16 = 1500 if chk.thorough() else 60
     for _ in range(n16):
         n, d = rng.choice(dom16)
         ks = sorted(rng.sample(range(1, 17), n))
         jobs.append(([(k, 16) for k in ks], d, True))
     # pool {1/8..1}, degree 1-4
     dom8 = [(n, d) for n in range(2, 7) for d in (1, 2, 3, 4) if n > d]
-    n8 = 600 if chk.thorough() else 50
+    n8 = 600 if chk.thorough() else 40
     for _ in range(n8):
         n, d = rng.choice(dom8)
         ks = sorted(rng.sample(range(1, 9), n))
@@ -97,7 +97,7 @@ def run(chk):
             {"module": "InterpMC", "cfg": "InterpMC_full.cfg" if chk.thorough() else "InterpMC.cfg",
              "label": ("B1 pool {1/16..1} 2-6 points degree 1-3, pool {1/8..1} 2-6 points degree 4, rejection lists"
                        if chk.thorough() else
-                       "B1 pool {1/8..1} 2-5 points degree 1-4, pool {1/16..1} 2-3 points degree 1-2, rejection lists"),
+                       "B1 pool {1/8..1} 2-4 points degree 1-3 and 5 points degree 3-4, pool {1/16..1} 2-3 points degree 1-2, rejection lists"),
              "workers": 12 if chk.thorough() else 8},
             {"module": "InterpMC", "cfg": "InterpMC_upperopen.cfg", "label": "design switch UpperClosed=FALSE (must violate)", "workers": 1, "expect_violation": "InvC34"},
         ]
